@@ -5,22 +5,22 @@ open CB.Gen
 
 theorem mulhilo_meaning (x y : BitVec 64) :
     ((Prim.mulhilo x y).1.setWidth 128 <<< 64) ||| (Prim.mulhilo x y).2.setWidth 128 = x.setWidth 128 * y.setWidth 128 := by
-  simp only [gen_defs]; bv_decide
+  simp only [gen_defs]; (try simp only [BitVec.mul_comm]); bv_decide
 
 theorem mul_wide_meaning (x y : BitVec 64) :
     ((Prim.mul_wide x y).2.setWidth 128 <<< 64) ||| (Prim.mul_wide x y).1.setWidth 128 = x.setWidth 128 * y.setWidth 128 := by
-  simp only [gen_defs]; bv_decide
+  simp only [gen_defs]; (try simp only [BitVec.mul_comm]); bv_decide
 
 theorem addhilo_meaning (xh xl yh yl : BitVec 64) :
     ((Prim.addhilo xh xl yh yl).1.setWidth 128 <<< 64) ||| (Prim.addhilo xh xl yh yl).2.setWidth 128 =
       ((xh.setWidth 128 <<< 64) ||| xl.setWidth 128) + ((yh.setWidth 128 <<< 64) ||| yl.setWidth 128) := by
-  simp only [gen_defs]; bv_decide
+  simp only [gen_defs]; (try simp only [BitVec.mul_comm]); bv_decide
 
 /-- `mac`: `lo + 2^64·hi = a + b·c + carry`, and the final `hi.wrapping_add` never wraps (that is the statement). -/
 theorem mac_meaning (a b c k : BitVec 64) :
     ((Prim.mac a b c k).2.setWidth 128 <<< 64) ||| (Prim.mac a b c k).1.setWidth 128 =
       a.setWidth 128 + b.setWidth 128 * c.setWidth 128 + k.setWidth 128 := by
-  simp only [gen_defs]; bv_decide
+  simp only [gen_defs]; (try simp only [BitVec.mul_comm]); bv_decide
 
 theorem mulWide_bridge (a b : BitVec 64) :
     CB.mulWide a.toNat b.toNat = ((Prim.mul_wide a b).1.toNat, (Prim.mul_wide a b).2.toNat) := by
